@@ -14,7 +14,7 @@ SEQ_NOTE = ("Trusted: CPython 3.12, hashlib, the scratch file system (tmpfs /dev
 CHECKS = {
     # id: (category, engine, technique, text, design_ref, note)
     "C01": ("exploration", "seq", "runtime monitor: differential oracle (hashlib / byte equality / stream state) over generated store-retrieve episodes with interleaved histories; plus post-condition / invariant monitors wrapped round the public methods while the repository's own test suite runs (another author's inputs)",
-            "Post-condition monitor on real store_object / retrieve_object calls across 5 data kinds x offsets x 5 algorithms x 3 shard shapes x buffer-boundary sizes x random histories on other pids; exploration is the honest level for a universal claim over inputs and histories.",
+            "Post-condition monitor on real store_object / retrieve_object calls across 8 data kinds (incl. gzip, fdopen and replaced-on-disk streams) x offsets x 5 algorithms x 3 shard shapes x buffer-boundary sizes x random histories on other pids; exploration is the honest level for a universal claim over inputs and histories.",
             "4/C01", SEQ_NOTE),
     "C05": ("exploration", "seq", "runtime monitor: store-directory abstraction compared with a reference model after every call (bounded-exhaustive + random call sequences); plus post-condition / invariant monitors wrapped round the public methods while the repository's own test suite runs (another author's inputs)",
             "After every call of every sequence (all sequences up to length 3/4 over a 26-op menu, plus long random ones over the whole API) the two reference indexes, the object set and residue are compared with a reference model and a structural invariant.",
